@@ -14,7 +14,10 @@ RULE = ("case = one script line.  W: window-tree / restack-queue lifecycle scrip
         "depth <= 3, ref/unref/close in any order, restack requests left pending, show/hide/focus, flush, key and "
         "mouse events whose handlers run further calls); T: a copy-out call (get_cell_text / get_span / "
         "mockterm get_display_text) into malloc(len) for every len from 0 to two beyond the text; O: lifecycle script "
-        "over pens, strings, render buffers, terminals (mock and xterm) and the toplevel instance.  Every case runs in "
+        "over pens, strings, render buffers, terminals (mock and xterm) and the toplevel instance; R: the pen stack of a render "
+        "buffer (setpen NULL / empty / with attributes at every depth of save and savepen frames, restore, whole-line "
+        "text and erase, clear, reset, flush to an xterm and to the mock terminal, drop; observation = live pens, strings "
+        "and stack frames of the buffer after every call).  Every case runs in "
         "its own forked process under ASan+UBSan with exact allocation accounting and a recoverable LSan check.  "
         "Observation = OK + destroy order + link fields/refcounts/queue of what is left + leak flag + the trace of "
         "client calls executed (also those made by handlers), or the fault kind + step.  The model must reproduce the "
@@ -28,13 +31,16 @@ ASSUMPTIONS = [
     "modelled and tested, not proved); that enough fuel exists (termination) is not proved",
     "all windows of a script have the same geometry (the pointer structure, not the geometry, is explored)",
     "a single root window per script; the harness holds the only client reference to the terminal",
+    "R cases: text and erase calls cover a whole line, so that a line is a single span (span splitting, masks, clips "
+    "and translation belong to C03/C04); pens / frames / strings of a buffer are counted as live blocks of their sizes",
     "malloc does not fail",
     "memory-safety itself is observed at run time by the sanitizers; the theorems are about the ownership model",
 ]
 TRUSTED = [
     "AddressSanitizer/UndefinedBehaviourSanitizer/LeakSanitizer of gcc 12 and the allocation hooks "
     "(__sanitizer_install_malloc_and_free_hooks) report every invalid access / outstanding block of the explored runs",
-    "model coq/LifeDefs.v hand-written after src/window.c (repaired); discipline checker and oracle coq/LifeSpec.v",
+    "model coq/LifeDefs.v hand-written after src/window.c (repaired); discipline checker and oracle coq/LifeSpec.v; "
+    "model coq/LifePenDefs.v hand-written after the pen / string reference counting of src/renderbuffer.c",
     "the harness harness/C08.c (+C08_objs.inc): script interpreter, fork per case, classification of sanitizer reports",
 ]
 
@@ -88,6 +94,8 @@ class Ghost:
         k = op[0]
         if k in "-km":
             return True
+        if k == 'U':
+            return self.usable(int(op[1:].split('.')[0]))
         if k == 'b':
             i = int(op[1:].split('.')[0])
             return self.usable(i)
@@ -123,7 +131,7 @@ class Ghost:
 
 
 RESTACK = "RLFB"
-SIMPLE = "shtxg"
+SIMPLE = "shtxgy"
 
 
 def gen_wf_script(rnd, maxops, events, release):
@@ -141,9 +149,13 @@ def gen_wf_script(rnd, maxops, events, release):
         """a short handler body about window i or its neighbours"""
         others = [j for j in range(1, nwin) if g.held(j)]
         j = rnd.choice(others) if others else i
+        serial = sum(1 for t in toks if t[0] == 'b')      # the number this handler will get
+        if rnd.random() < 0.2:
+            # unbind itself, then something that dispatches another event on the same window
+            return "U%d.%d,%s" % (i, serial, rnd.choice(["y%d" % i, "t%d" % i, "y%d,t%d" % (i, i), "x%d" % i, "-"]))
         return rnd.choice([
             "c%d,u%d" % (i, i), "u%d" % i, "c%d,u%d" % (j, j), "u%d" % j, "c%d" % j, "r%d" % j, "R%d" % j, "h%d" % j,
-            "L%d,c%d,u%d" % (j, j, j), "n%d.0" % j, "f0", "t%d" % j, "-", "-",
+            "L%d,c%d,u%d" % (j, j, j), "n%d.0" % j, "f0", "t%d" % j, "y%d" % j, "y%d" % i, "-", "-",
         ])
 
     for _ in range(maxops):
@@ -234,9 +246,38 @@ def gen_W(tier, seed, info):
                          ["r3", "c1", "u1", "u3"], ["r3", "u1", "f0", "u3"], ["c1", "c2", "u2", "u1"], ["u0"]):
                 stats["exhaustive"] += 1
                 yield "W n0.0 n1.0 n2.0 %s%d %s f0" % (rs, target, " ".join(tear))
+    # handlers that unbind themselves and then cause a nested dispatch on their own window
+    # (set_geometry -> GEOMCHANGE, take_focus -> FOCUS), alone or followed by a second handler
+    for target, pre in ((1, ["n0.0"]), (0, []), (2, ["n0.0", "n1.0"])):
+        for kind, evs in (("k.0", ["k"]), ("m.ff", ["mp"]), ("m.ff", ["mp", "md", "mr"])):
+            for nested in ("y%d", "t%d", "y%d,t%d", "t%d,y%d", "h%d,s%d"):
+                for second in (False, True):
+                    for ret in (0, 1):
+                        body = "U%d.0,%s" % (target, nested.replace("%d", str(target)))
+                        toks = pre + ["b%d.%s.%d.%s" % (target, kind, ret, body)]
+                        if second:
+                            toks.append("b%d.%s.0.y%d" % (target, kind, target))
+                        stats["exhaustive"] += 1
+                        yield "W " + " ".join(toks + evs + evs + ["f0"])
+    # a leaf that gets the key first (focused or stealing input) destroys an ancestor and lets the
+    # dispatch continue there
+    for leaf_first in (["t2"], ["S2.1"], ["t2", "S2.1"]):
+        for keep in ([], ["r2"], ["r2", "r1"]):
+            for body in ("c1,u1", "u1", "c1", "c1,u1,c2,u2", "h1,c1,u1", "c0,u0", "u0"):
+                for ret in (0, 1):
+                    for ev in ("k", "mp"):
+                        kind = "k.0" if ev == "k" else "m.ff"
+                        stats["exhaustive"] += 1
+                        yield "W n0.0 n1.0 %s b2.%s.%d.%s %s %s f0" % (
+                            " ".join(keep + leaf_first), kind, ret, body, ev, ev)
+    # the same one level deeper: the leaf destroys the middle window of a four-level chain
+    for body in ("c2,u2", "c1,u1", "u2", "c2,u2,c1,u1"):
+        for keep in (["r3"], ["r3", "r2"], []):
+            stats["exhaustive"] += 1
+            yield "W n0.0 n1.0 n2.0 %s t3 b3.k.0.0.%s k k f0" % (" ".join(keep), body)
     info["exhaustive"] = True
     info["exhaustive_scope"] = ("W: 2 tree shapes (two siblings; parent+child) x every sequence of <= %d calls over %s; "
-                                "16 flag combinations x 3 depths x 6 teardown orders; 4 restack kinds x 2 targets in a 3-level chain x 10 teardown orders" % (L, " ".join(alpha)))
+                                "16 flag combinations x 3 depths x 6 teardown orders; 4 restack kinds x 2 targets in a 3-level chain x 10 teardown orders; self-unbinding handlers x 5 nested dispatches x 3 positions x 3 event kinds; leaf handlers destroying an ancestor (focus/steal x kept references x 7 bodies x key/mouse)" % (L, " ".join(alpha)))
     # --- random well-formed lifecycles, without and with events
     n_wf = 2500 if tier == "quick" else 60000
     for _ in range(n_wf):
@@ -432,9 +473,38 @@ def gen_O(tier, seed, info):
     info["O"] = {"cases": made}
 
 
+R_TAILS = ["", "x", "x t0", "x t0 f", "x t0 F", "t0 x t1 f", "x x t0 z", "t0 x e0 c F", "x pN t1 x t0 F", "e1 x t1 z t0 f",
+           "t0 s pN t1 x t2 x f"]
+R_OPS = ["s", "S", "x", "x", "pN", "pN", "pE", "pA", "pB", "t0", "t1", "t2", "t3", "e0", "e1", "e2", "e3", "c", "z", "f", "F"]
+
+
+def gen_R(tier, seed, info):
+    """the pen stack of a render buffer: setpen with NULL / an empty pen / pens with attributes at every stack depth
+    (save and savepen frames, with and without a pen change before them), followed by restore, further drawing,
+    flush to an xterm / the mock terminal, reset; then random programs; the buffer is dropped at the end of every case"""
+    rnd = random.Random(seed * 32452843 + 8)
+    made = 0
+    for c in ["R", "R pN", "R s pN x t0 f", "R S pN x e0 F", "R t0 t0 e0 t0 c t1 z", "R t3 e3 t0 f t0 F"]:
+        made += 1
+        yield c
+    for d in range(0, 4):
+        for frames in itertools.product("sS", repeat=d):
+            for pre in ([], ["pA"]):
+                for x in ("pN", "pE", "pA", "pB"):
+                    for tail in R_TAILS:
+                        made += 1
+                        yield " ".join(["R"] + pre + list(frames) + [x] + tail.split())
+    n = 1500 if tier == "quick" else 40000
+    for _ in range(n):
+        made += 1
+        yield "R " + " ".join(rnd.choice(R_OPS) for _ in range(rnd.randint(2, 24)))
+    info["R"] = {"cases": made}
+
+
 def gen(tier, seed, info):
     yield from gen_T(tier, seed, info)
     yield from gen_O(tier, seed, info)
+    yield from gen_R(tier, seed, info)
     yield from gen_W(tier, seed, info)
 
 
@@ -464,12 +534,23 @@ def classify(case, obs):
         return ('T', k, verdict, t[2] if len(t) > 2 else "")
     if t[0] == 'O':
         return ('O', verdict, "".join(sorted(set(o[0] for o in t[1:]))))
+    if t[0] == 'R':
+        depth = maxdepth = 0
+        for o in t[1:]:
+            if o in "sS":
+                depth += 1
+            elif o == "x":
+                depth = max(0, depth - 1)
+            elif o in "zfF":
+                depth = 0
+            maxdepth = max(maxdepth, depth)
+        return ('R', verdict, "".join(sorted(set(o[:2] if o[0] == 'p' else o[0] for o in t[1:]))), maxdepth)
     return None
 
 
 def shrink(case):
     t = case.split()
-    if t[0] not in "WO":
+    if t[0] not in "WOR":
         return
     for i in range(len(t) - 1, 0, -1):
         if t[i] == "-":
